@@ -390,3 +390,72 @@ class get_scoped_setup_inputs_contract:
 
     def canary(sh, a, ret):
         check("canary: the closure is always empty", ret is not None and len(ret.inputs) == 0 and sh["chain"] != "direct")
+
+
+# ------------------------------------------------------------------------------------------------------------------
+# the cloning step both loop copies rely on: a SIMULTANEOUS substitution of the dependent values
+# ------------------------------------------------------------------------------------------------------------------
+NEW_KINDS = ("fresh", "swap", "shift", "keep_one", "rotate")
+
+
+@contract
+class copy_with_new_dependent_vals_contract:
+    """the copy computes  value[ d_0 := n_0, ..., d_k := n_k ]  with all replacements made AT ONCE: a new value that is
+    itself one of the old dependent values (loop-carried values passed on unchanged, swapped - ping-pong buffers - or
+    rotated by the yield) is NOT replaced a second time; the original ops are left as they are"""
+    target = "snaxc.inference.scoped_setups.ScopedSetupWithInputs.copy_with_new_dependent_vals"
+    shapes = [dict(new=k) for k in NEW_KINDS]
+    native = False
+    total = True
+    permissive = True
+    compare_ret = False
+
+    def args(sh, sym):
+        D = [sym.int(f"D{k}") for k in range(3)]
+        N = [sym.int(f"N{k}") for k in range(3)]
+        body = Block([], [IndexType(), IndexType(), IndexType()])
+        d = list(body.args)
+        for k in range(3):
+            d[k].den = D[k]
+        fresh = [idx(mk_opresult(N[k])) for k in range(3)]
+        ext = idx(mk_opresult(sym.int("ext")))
+        new = dict(fresh=fresh, swap=[d[1], d[0], fresh[2]], shift=[d[1], d[2], fresh[0]], keep_one=[d[0], fresh[1], d[2]], rotate=[d[1], d[2], d[0]])[sh["new"]]
+        a = arith.AddiOp(d[0], ext)
+        m = arith.MuliOp(a.results[0], d[1])
+        s = arith.SubiOp(m.results[0], d[2])
+        inputs = [a, m, s]
+        setup = accfg.SetupOp([s.results[0], d[0], d[1], ext, m.results[0]], ["f0", "f1", "f2", "f3", "f4"], "acc")
+        for o in inputs + [setup]:
+            body.add_op(o)
+        scoped = scoped_setups.ScopedSetupWithInputs(setup, tuple(d), tuple(inputs))
+        return [scoped, tuple(new), D, d, ext, inputs, setup]
+
+    def ensures(sh, a, ret):
+        scoped, new, D, d, ext, inputs, setup = a
+        check("the copy records the new dependent values", len(ret.dependent_vars) == 3 and all(ret.dependent_vars[k] is new[k] for k in range(3)))
+        check("one clone per input op, same kind, in the same order - new objects, not the originals",
+              len(ret.inputs) == len(inputs) and all(type(ret.inputs[j]) is type(inputs[j]) and not any(ret.inputs[j] is o for o in inputs) for j in range(min(len(ret.inputs), len(inputs)))))
+        check("the setup is cloned (same accelerator and fields), not reused", ret.setup is not setup and ret.setup.accelerator == setup.accelerator and ret.setup.param_names == setup.param_names)
+        sigma = [(D[k], den(new[k])) for k in range(3)]
+        for k in range(len(setup.values)):
+            check(f"setup value {k} == original value [ d := n ] (simultaneous substitution)", den(ret.setup.values[k]) == subst(den(setup.values[k]), sigma))
+
+        def image(x, upto):
+            for k in range(3):
+                if x is d[k]:
+                    return new[k]
+            for j in range(upto):
+                if x is inputs[j].results[0]:
+                    return ret.inputs[j].results[0]
+            return x
+
+        for j in range(min(len(ret.inputs), len(inputs))):
+            check(f"clone {j}: every operand is the image of the original operand (new dependent value / earlier clone / same outer value)",
+                  len(ret.inputs[j].operands) == len(inputs[j].operands) and all(ret.inputs[j].operands[k] is image(inputs[j].operands[k], j) for k in range(len(inputs[j].operands))))
+        check("cloned setup: every value is the image of the original value",
+              len(ret.setup.values) == len(setup.values) and all(ret.setup.values[k] is image(setup.values[k], len(inputs)) for k in range(len(setup.values))))
+        check("frame: the original ops keep their operands", inputs[0].operands[0] is d[0] and inputs[0].operands[1] is ext and inputs[1].operands[1] is d[1]
+              and inputs[2].operands[1] is d[2] and setup.values[1] is d[0] and setup.values[2] is d[1] and scoped.setup is setup)
+
+    def canary(sh, a, ret):
+        check("canary: the copy uses the old dependent values", ret.setup.values[1] is a[3][0] and sh["new"] != "keep_one")
